@@ -34,10 +34,7 @@ package keeper
 //@   requires exists id: types.CertID :: key == certKeyOf(id) && len(addrBytes(id.Owner)) == 20 && id.Serial >= 0
 //@   ensures forall id: types.CertID :: key == certKeyOf(id) && len(addrBytes(id.Owner)) == 20 && id.Serial >= 0 ==> result == id.Serial
 
-//@ spec bigStr(n: int): str
-//@ extern "math/big".(*Int).String(x)
-//@   pure
-//@   ensures result == bigStr(*x)
+// (bigStr and the contract of (*big.Int).String are in /verif/specs/x509.spec)
 
 // representation invariant of the certificate store: every key has the registered layout
 //@ spec opaque certRI(has: map[str]bool): bool = forall key: str :: has[key] ==>
